@@ -28,7 +28,7 @@
    [Err]; the correspondence checks exactly that on every such case. *)
 From Coq Require Import Lia.
 (* source tie by translation: the lemmas of these files are obligations of this property *)
-From Soy Require Import Proofs.SourceTieData Proofs.SourceTieHtml Proofs.SourceTieScope Proofs.SourceTieRegistry Proofs.SourceTieDirectives.
+From Soy Require Import Proofs.SourceTieData Proofs.SourceTieHtml Proofs.SourceTieScope Proofs.SourceTieRegistry Proofs.SourceTieDirectives Proofs.SourceTieWordBreaks.
 From Soy Require Import Model.Bytes Model.Num Model.Values Model.Outcome Model.Ast
   Model.Escape Model.Directives Model.Print Generated.Tables Model.Interp Model.InterpSafety Model.Globals
   Model.Compile Model.ExprPipeline Model.InterpJson Spec.Safety
@@ -402,7 +402,7 @@ Proof. exact json_total_float_free. Qed.
 Print Assumptions C06_json_total_float_free.
 
 Theorem C06_escape_js_total :
-  forall v args s, value_string v = Ok s -> dir_escape_js (Some v) args = Ok (Some (VStr (JsEscape.js_escape is_print_tbl s))).
+  forall v args s, value_string v = Ok s -> dir_escape_js (Some v) args = Ok (Some (VStr (JsEscape.js_escape_soy jsstr_pair_html is_print_tbl s))).
 Proof. exact dir_escape_js_total. Qed.
 Print Assumptions C06_escape_js_total.
 
